@@ -10,6 +10,7 @@ import (
 	"go.minekube.com/common/minecraft/component/codec"
 	"go.minekube.com/common/minecraft/component/codec/legacy"
 	"go.minekube.com/common/minecraft/key"
+	"go.minekube.com/gate/pkg/command"
 	"go.minekube.com/gate/pkg/edition/java/proto/packet/plugin"
 	"go.minekube.com/gate/pkg/edition/java/proto/util"
 	"go.minekube.com/gate/pkg/edition/java/proto/version"
@@ -353,8 +354,11 @@ func (r *bungeeCordMessageResponder) processMessage0(in io.Reader, decoder codec
 	}
 	if target == "ALL" {
 		r.BroadcastMessage(comp)
-	} else {
-		r.Server(target).BroadcastMessage(comp)
+		return
+	}
+	// The target of Message and MessageRaw is a player name.
+	if sink, ok := r.PlayerByName(target).(messageSink); ok {
+		_ = sink.SendMessage(comp)
 	}
 }
 func (r *bungeeCordMessageResponder) processMessage(in io.Reader) {
@@ -452,6 +456,10 @@ func (r *bungeeCordMessageResponder) processGetPlayerServer(in io.Reader) {
 type (
 	playerFn func(p Player)
 	serverFn func(s Server)
+	// messageSink is implemented by players that can receive chat messages.
+	messageSink interface {
+		SendMessage(msg component.Component, opts ...command.MessageOption) error
+	}
 )
 
 func (r *bungeeCordMessageResponder) readServer(in io.Reader, fn serverFn) {
